@@ -617,13 +617,23 @@ func (w *World) StageIn(where, p, o, after string) error {
 }
 
 // Stash applies Stash(p, o): edit p to content o, then git stash (work tree back to pointers).
-func (w *World) Stash(p, o string) error {
+func (w *World) Stash(p, o, kind string) error {
 	file := filepath.Join(w.Clone, PathFile(p))
 	if err := w.Env.WriteFile(file, w.Content(o), 0o644); err != nil {
 		return err
 	}
-	w.logf("GIT_LFS_SKIP_SMUDGE=1 git stash")
-	r := w.Env.RunIn(w.Clone, skipSmudge, nil, 0, "git", "stash", "-q")
+	args := []string{"stash", "-q"}
+	switch kind {
+	case "index": // staged, then the working file goes away: only the stash's index commit has the object
+		if r := w.Env.RunIn(w.Clone, nil, nil, 60*time.Second, "git", "add", "--", PathFile(p)); !r.OK() {
+			return fmt.Errorf("stash (add): %s", r.All())
+		}
+		os.Remove(file)
+	case "untracked": // a new file: only the stash's untracked-files commit has the object
+		args = append(args, "-u")
+	}
+	w.logf("(%s) GIT_LFS_SKIP_SMUDGE=1 git %s", kind, strings.Join(args, " "))
+	r := w.Env.RunIn(w.Clone, skipSmudge, nil, 0, "git", args...)
 	if !r.OK() {
 		return fmt.Errorf("stash: %s", r.All())
 	}
